@@ -128,6 +128,14 @@ def lower1(ctx) -> List[Ob]:
             if not proc:
                 out.append(ok("LOWER-1", he.qualname, key, where, "no child is lowered through an emitting function", nontrivial=False))
                 continue
+            if order is None and cls in ("expr", "AST", "keyword", "expr_context") and "*" in proc:
+                # a generic walk over the fields of every expression class: it also descends into what Python
+                # evaluates conditionally or in another scope, unless the arm names those classes to leave them alone
+                named = {n.attr for n in ast.walk(ast.Module(arm.body, [])) if isinstance(n, ast.Attribute) and isinstance(n.value, ast.Name) and n.value.id == "ast"}
+                left = sorted(c_ for c_ in CONDITIONAL if c_ not in named and c_ != "BoolOp")
+                if left:
+                    out.append(bad("LOWER-1", he.qualname, key, where, f"the arm for ast.{cls} lowers every field of every node class generically, including {', '.join('ast.' + c_ + '.' + '/'.join(sorted(CONDITIONAL[c_])) for c_ in left)}: an and/or found there is hoisted out of the scope that binds its names (NameError, or one value for every element) or runs although Python would not evaluate it"))
+                    continue
             if order is None:
                 out.append(unresolved("LOWER-1", he.qualname, key, where, f"evaluation order of ast.{cls} unknown to the checker"))
                 continue
